@@ -209,8 +209,8 @@ class IkeSaController:
                         dst_addr = (str(ikesa.peer_addr), 500)
                         udp_sockets[ikesa.my_addr].sendto(request_data, dst_addr)
 
-            except socket.gaierror as ex:
-                logging.error(f'Problem sending message: {ex}')
+            except OSError as ex:
+                logging.error(f'Problem sending or receiving a message: {ex}')
             except KeyError as ex:
                 logging.error(f'Could not find socket with the appropriate source address: {str(ex)}')
 
